@@ -50,3 +50,74 @@ def replay(ctx, path):
     # the recorded observation is re-made and re-validated by the trace spec of its module
     print(json.dumps(v, indent=1)[:3000])
     return 0
+
+
+def C04(ctx):
+    t = "quick" if ctx.quick else "thorough"
+    ctx.rule = ("patterns = every concatenation of <= N pieces over { } , a b (chars) and over { } , a b -1 >1 * (mixed); "
+                "each brace pattern's compile verdict and its match verdicts against a fixed name list, all of its csh "
+                "expansions and all near-miss strings are compared with the real code; plus random brace trees; "
+                "non-trivial = a (pattern, name) pair that matches")
+    ctx.emit_replay("MC_PatEnum", "MC_PatEnum.chars.%s.cfg" % t, "brace-chars")
+    ctx.emit_replay("MC_PatEnum", "MC_PatEnum.mixed.%s.cfg" % t, "brace-mixed")
+    ctx.exhaustive = True
+
+
+PROPS["C04"] = C04
+
+
+def C02(ctx):
+    t = "quick" if ctx.quick else "thorough"
+    ctx.rule = ("patterns = every string of <= 4/5 symbols over {a b - > < = 1 2 e-acute}; compile verdict and match "
+                "verdicts against a fixed name list through Pattern and through Dewey compared with the real code; "
+                "plus random grammar-derived patterns (bases with several '-', near-miss bases, empty bounds, "
+                "adjacent operators, non-ASCII) validated by TLC; non-trivial = a (pattern, name) pair that matches")
+    ctx.assumptions = ["error kind/position of a rejected pattern is not compared (documented as approximate)"]
+    ctx.emit_replay("MC_PatEnum", "MC_PatEnum.dewey.%s.cfg" % t, "dewey-enum")
+    ctx.exhaustive = True
+    ctx.record_validate("patdewey", q(ctx, 10000, 150000), "Tr_Pattern", "Tr_Pattern.cfg")
+
+
+def C04b(ctx):
+    ctx.record_validate("patbrace", q(ctx, 8000, 100000), "Tr_Pattern", "Tr_Pattern.cfg")
+
+
+def C05(ctx):
+    t = "quick" if ctx.quick else "thorough"
+    ctx.rule = ("patterns = every sequence of <= 3/4 items over {a b - 1 * ? [ab] [!a] [0-9]} (globs and plain strings) "
+                "against all names of length <= 3 over {a b - 1 0} plus selected longer ones, including the empty name; "
+                "fast-reject inertness is an invariant of every enumerated pattern kind (glob, plain here; dewey and "
+                "brace in the C02/C04 instances, re-run here at quick size); random well-formed globs and names "
+                "differing in the first/second character validated by TLC; non-trivial = matching pair")
+    ctx.assumptions = ["'**', '***', '[]', '[!]', '[^x]', backslashes and sets with ']' '[' '!' '-' as members are outside "
+                       "the judged shell-glob subset (only totality is required there)"]
+    ctx.emit_replay("MC_PatEnum", "MC_PatEnum.glob.%s.cfg" % t, "glob-enum")
+    ctx.emit_replay("MC_PatEnum", "MC_PatEnum.mixed.quick.cfg", "brace-mixed")
+    ctx.exhaustive = True
+    ctx.record_validate("patglob", q(ctx, 10000, 150000), "Tr_Pattern", "Tr_Pattern.cfg")
+
+
+def C06(ctx):
+    t = "quick" if ctx.quick else "thorough"
+    ctx.rule = ("reduction machine: all pools of <= 3/4 candidates over 10 names x 4 patterns, all orders of pairwise "
+                "reduction (TLC interleavings); simulated reduction behaviours replayed step by step on the real code; "
+                "random pools of <= 8 names with random reduction orders recorded and validated through the Reduce "
+                "action; best_match pairs in both argument orders; non-trivial = some candidate matches")
+    ctx.mc("MC_BestMatch", "MC_BestMatch.%s.cfg" % t)
+    ctx.emit_replay("MC_BestMatch", "MC_BestMatch.sim.cfg", "reduce-sim", workers=1,
+                    simulate="num=%d" % q(ctx, 2000, 20000), seed=ctx.seed)
+    ctx.record_validate("best", q(ctx, 10000, 100000), "Tr_Pattern", "Tr_Pattern.cfg")
+    ctx.record_validate("reduce", q(ctx, 4000, 40000), "Tr_BestMatch", "Tr_BestMatch.cfg",
+                        devs={"lb96": "KF1"}, base_tag="lb0")
+
+
+PROPS.update({"C02": C02, "C05": C05, "C06": C06})
+_c04 = C04
+
+
+def C04(ctx):
+    _c04(ctx)
+    C04b(ctx)
+
+
+PROPS["C04"] = C04
